@@ -405,6 +405,54 @@ pub fn eval_session_check(check: &str, case: &Case, replies: &[String]) -> Optio
                 Some(i) => Err(format!("the output taken at op {} ({}) has a {} record although that kind of record is switched off in this configuration", i, replies[i], kind)),
             }
         }
+        // the trace records of the range, immediate repeats collapsed, are the given line sequence
+        ["trace-seq", r, want] => {
+            let (a, b) = parse_range(r);
+            let mut seq: Vec<String> = vec![];
+            for i in a..=b.min(case.ops.len() - 1) {
+                if case.ops[i] == "take" {
+                    for rec in replies[i].split(' ') {
+                        if let Some(n) = rec.strip_prefix("T:") {
+                            if seq.last().map(|x| x.as_str()) != Some(n) {
+                                seq.push(n.to_string());
+                            }
+                        }
+                    }
+                }
+            }
+            if seq.join(",") == *want {
+                Ok(())
+            } else {
+                Err(format!("the trace (repeats collapsed) names the lines {} but execution passes through {}", seq.join(","), want))
+            }
+        }
+        // every line of the program prints `#<its number>` first: the trace, repeats collapsed, is the sequence of those marks
+        ["trace-eq-marks", r] => {
+            let (a, b) = parse_range(r);
+            let (mut seq, mut marks): (Vec<String>, Vec<String>) = (vec![], vec![]);
+            for i in a..=b.min(case.ops.len() - 1) {
+                if case.ops[i] == "take" {
+                    for rec in replies[i].split(' ') {
+                        if let Some(n) = rec.strip_prefix("T:") {
+                            if seq.last().map(|x| x.as_str()) != Some(n) {
+                                seq.push(n.to_string());
+                            }
+                        } else if let Some(t) = rec.strip_prefix("P:").and_then(crate::imp::unhex) {
+                            if let Some(n) = t.trim_end().strip_prefix('#') {
+                                if marks.last().map(|x| x.as_str()) != Some(n) {
+                                    marks.push(n.to_string());
+                                }
+                            }
+                        }
+                    }
+                }
+            }
+            if seq == marks {
+                Ok(())
+            } else {
+                Err(format!("the trace (repeats collapsed) names the lines {} but the lines that ran (each prints its own number) are {}", seq.join(","), marks.join(",")))
+            }
+        }
         ["snap-field-is", i, key, want] => {
             let i: usize = i.parse().unwrap();
             let f = snapshot_fields(&replies[i]);
@@ -644,6 +692,15 @@ pub fn eval_session_check(check: &str, case: &Case, replies: &[String]) -> Optio
                 } else {
                     Err(format!("cli comparison failed: {}", replies[i]))
                 }
+            }
+        }
+        // C15: a file that is well-formed by construction is run, not refused
+        ["cli-ran", i] => {
+            let i: usize = i.parse().unwrap();
+            if replies[i] == "refused" {
+                Err("`abasic FILE` refused a well-formed file (static check reported an error) that the piped session runs".to_string())
+            } else {
+                Ok(())
             }
         }
         // C19: the adapter did not trap and shows exactly what the core interpreter produces for the same calls
